@@ -296,10 +296,16 @@ func sameTokens(a, s []string) (bool, string) {
 		if j < len(s) {
 			ts = s[j]
 		}
-		return false, fmt.Sprintf("input=%s rerendered=%s", tokClass(ta), tokClass(ts))
+		switch {
+		case ts == "(":
+			return false, "re-associated (the tree needs parentheses that the text lacks)"
+		case ta == "(" || ta == ")":
+			return false, "parenthesis of the text not in the tree"
+		}
+		return false, fmt.Sprintf("input token %s missing or changed in the tree", tokClass(ta))
 	}
 	if len(open) != 0 {
-		return false, "input=<end> rerendered=unbalanced"
+		return false, "re-associated (the tree needs parentheses that the text lacks)"
 	}
 	return true, ""
 }
@@ -476,7 +482,7 @@ func judgeNearMiss(c *driver.Ctx, r *rand.Rand, lines [][]string, indent []int32
 	s := normalise(structure(rtoks))
 	if same, diff := sameTokens(a, s); !same {
 		if base {
-			c.Violation("C14 near-miss base-text-reparsed-with-other-tokens "+diff,
+			c.Violation("C14 near-miss base-text-reparsed-with-other-tokens",
 				fmt.Sprintf("a valid text is accepted, but the tree it is given spells a different token sequence (%s): input %q, tree re-rendered %q", diff, text, rtext),
 				detail(map[string]any{"rerendered": rtext, "input_tokens": a, "tree_tokens": s}))
 			return false
